@@ -173,10 +173,16 @@ def reshape_identity(ctx, R, rule):
     for st in stores:
         t = st.targets[0]
         lp = getattr(st, '_parent', None)
-        if isinstance(lp, ast.For) and src(lp.iter).startswith(inv_param) \
-                and isinstance(lp.target, ast.Tuple) and src(
-                    lp.target.elts[0]) == src(st.value) and src(
-                        t.slice) == '%s.uuid' % src(st.value):
+        # a loop over the mapping's items (key first) or over its keys
+        lkey = None
+        if isinstance(lp, ast.For) and src(lp.iter).startswith(inv_param):
+            if isinstance(lp.target, ast.Tuple):
+                lkey = src(lp.target.elts[0])
+            elif isinstance(lp.target, ast.Name) and src(lp.iter) in (
+                    inv_param, inv_param + '.keys()'):
+                lkey = lp.target.id
+        if lkey is not None and lkey == src(st.value) and src(
+                t.slice) == '%s.uuid' % src(st.value):
             first_cont = [x for x in own_nodes_of(lp)
                           if isinstance(x, ast.Continue)]
             okc = all(g.dominates(st, x) for x in first_cont) and not \
